@@ -209,8 +209,19 @@ class MibCompiler(object):
         mibsToParse = [x for x in mibnames]
         canonicalMibNames = {}
         lookedUpMibs = set()
+        brokenMibImports = {}
 
-        while mibsToParse:
+        while mibsToParse or brokenMibImports:
+            if not mibsToParse:
+                # the IMPORTS clause of a module was parsed all the same
+                # when its symbol table could not be built
+                for mibname in sorted(brokenMibImports):
+                    imported = brokenMibImports.pop(mibname)
+                    if mibname in failedMibs:
+                        mibsToParse.extend(imported)
+
+                continue
+
             mibname = mibsToParse.pop(0)
 
             # a name is looked up once per call, even if the file found under
@@ -255,7 +266,10 @@ class MibCompiler(object):
 
                         except error.PySmiError:
                             if len(mibTrees) == 1:
+                                brokenMibImports[mibname] = sorted(mibTree[2] or ())
                                 raise
+
+                            brokenMibImports[mibTree[0]] = sorted(mibTree[2] or ())
 
                             # one broken module does not take the other
                             # modules of its file with it
